@@ -1,7 +1,8 @@
 (* C08 - CQM feasibility and violation reports agree with the constraint definition.
    Only statements; every proof is `exact <lemma>`; examples by computation. *)
 From Coq Require Import List ZArith QArith Qcanon Bool Arith.
-From Dimod Require Import Base.Util Model.Poly Model.Feas Proofs.PolyFacts Proofs.FeasFacts.
+From Dimod Require Import Base.Util Model.Poly Model.Samples Model.Feas Model.EnergyCy Model.FeasCy
+  Proofs.PolyFacts Proofs.SamplesFacts Proofs.EnergyCyFacts Proofs.FeasFacts Proofs.FeasCyFacts.
 Import ListNotations.
 
 (* ---- per-sample path (constrained.py) ---- *)
@@ -159,6 +160,85 @@ Theorem C08_exact_solver_reports_feasible :
     <-> exists s, In s cases /\ feasible atol rtol m s = true.
 Proof. exact exact_solver_reports_feasible. Qed.
 Print Assumptions C08_exact_solver_reports_feasible.
+
+
+(* ---- the left-hand sides as the code evaluates them (cyexpression._energies under both paths):
+        raw expression state (parent indices, biases over local indices), sample matrix with column labels in
+        ANY order, columns the model does not know, the model's variables added in ANY order ---- *)
+
+(* one expression over a whole matrix: the labelled definition on every row *)
+Theorem C08_cy_lhs_energies_eq_definition :
+  forall (e : xexpr) (pvars ls : list label) (rows : list (list Qc)),
+    xexpr_wf e -> covers ls (xexpr_labels e pvars) = true ->
+    xexpr_energies_cy e pvars ls rows
+    = Some (map (fun row => energy (xexpr_poly_labels e pvars) (row_sample ls row)) rows).
+Proof. exact xexpr_energies_cy_covered. Qed.
+Print Assumptions C08_cy_lhs_energies_eq_definition.
+
+(* iter_constraint_data on the raw state = the per-sample path on the labelled CQM ... *)
+Theorem C08_cy_per_sample_path_refines :
+  forall (xm : xcqm) (ls : list label) (row : list Qc),
+    xcons_wf (xm_cons xm) -> xcons_covered (xm_pvars xm) ls (xm_cons xm) ->
+    x_iter_constraint_data (xm_pvars xm) (xm_cons xm) ls row
+    = Some (iter_constraint_data (xcqm_cqm xm) (row_sample ls row)).
+Proof. exact x_iter_constraint_data_eq. Qed.
+Print Assumptions C08_cy_per_sample_path_refines.
+
+(* ... hence the definition: lhs(sample), rhs, sense, activity, violation with every value assigned to the
+   variable CARRYING THAT LABEL *)
+Theorem C08_cy_per_sample_path_eq_definition :
+  forall (xm : xcqm) (ls : list label) (row : list Qc),
+    xcons_wf (xm_cons xm) -> xcons_covered (xm_pvars xm) ls (xm_cons xm) ->
+    x_iter_constraint_data (xm_pvars xm) (xm_cons xm) ls row
+    = Some (map (fun k => let s := row_sample ls row in
+                          mkDatum (energy (c_lhs k) s) (c_rhs k) (c_sense k) (activity k s) (violation k s))
+                (m_cons (xcqm_cqm xm))).
+Proof. exact x_iter_constraint_data_definition. Qed.
+Print Assumptions C08_cy_per_sample_path_eq_definition.
+
+(* from_samples_cqm: the objective column and the lhs columns that feed the vectorised loop *)
+Theorem C08_cy_vector_inputs_eq_definition :
+  forall (xm : xcqm) (ls : list label) (rows : list (list Qc)),
+    xexpr_wf (xm_obj xm) -> covers ls (xexpr_labels (xm_obj xm) (xm_pvars xm)) = true ->
+    xcons_wf (xm_cons xm) -> xcons_covered (xm_pvars xm) ls (xm_cons xm) ->
+    x_vec_inputs xm ls rows
+    = Some (map (fun row => energy (m_obj (xcqm_cqm xm)) (row_sample ls row)) rows,
+            map (fun k => map (fun row => energy (c_lhs k) (row_sample ls row)) rows) (m_cons (xcqm_cqm xm))).
+Proof. exact x_vec_inputs_eq. Qed.
+Print Assumptions C08_cy_vector_inputs_eq_definition.
+
+(* two presentations of the same assignment (other column order, extra columns) give the same data *)
+Theorem C08_cy_column_order_irrelevant :
+  forall (xm : xcqm) (ls : list label) (row : list Qc) (ls' : list label) (row' : list Qc),
+    xcons_wf (xm_cons xm) ->
+    xcons_covered (xm_pvars xm) ls (xm_cons xm) -> xcons_covered (xm_pvars xm) ls' (xm_cons xm) ->
+    (forall k v, In k (xm_cons xm) -> In v (xexpr_labels (xc_lhs k) (xm_pvars xm)) ->
+                 row_sample ls row v = row_sample ls' row' v) ->
+    x_iter_constraint_data (xm_pvars xm) (xm_cons xm) ls row
+    = x_iter_constraint_data (xm_pvars xm) (xm_cons xm) ls' row'.
+Proof. exact x_iter_constraint_data_column_order. Qed.
+Print Assumptions C08_cy_column_order_irrelevant.
+
+(* a label some left-hand side needs is missing from the samples: ValueError, in both paths *)
+Theorem C08_cy_missing_label_raises :
+  forall (pvars : list label) (cons : list xcon) (ls : list label) (row : list Qc),
+    xcons_wf cons -> (exists k, In k cons /\ xcon_covered pvars ls k = false) ->
+    x_iter_constraint_data pvars cons ls row = None.
+Proof. exact x_iter_constraint_data_raises. Qed.
+Print Assumptions C08_cy_missing_label_raises.
+
+Theorem C08_cy_missing_objective_label_raises :
+  forall (xm : xcqm) (ls : list label) (rows : list (list Qc)),
+    xexpr_wf (xm_obj xm) -> covers ls (xexpr_labels (xm_obj xm) (xm_pvars xm)) = false ->
+    x_vec_inputs xm ls rows = None.
+Proof. exact x_vec_inputs_raises. Qed.
+Print Assumptions C08_cy_missing_objective_label_raises.
+
+(* variables 2, 0, 1 added in that order, x2 - x0 over an unlabelled row [1; 5; 2] (label c <-> column c): 2 - 1 *)
+Example C08_ex_range_labels_out_of_order :
+  x_energy1 (mkX [0%nat; 1%nat] (qm_of_raw [INTEGER; INTEGER] [qc 1 1; qc (-1) 1] [] 0%Qc))
+            [2%nat; 0%nat; 1%nat] [0%nat; 1%nat; 2%nat] [qc 1 1; qc 5 1; qc 2 1] = Some (qc 1 1).
+Proof. vm_compute. reflexivity. Qed.
 
 (* ---- hypotheses are satisfiable on non-trivial data ---- *)
 Definition ex_cqm : cqm :=
